@@ -732,3 +732,205 @@ Lemma matches_of_source : C19Src.variant_of_source = Fixed -> matches_statement 
 Proof. intros ->. exact matches_fixed. Qed.
 Lemma loads_of_source : C19Src.variant_of_source = Fixed -> loads_statement C19Src.variant_of_source.
 Proof. intros ->. exact loads_fixed. Qed.
+
+(* ================================================================== original design: every NUL-free suggestion loads *)
+Definition starts_nonws (r : string) : bool := match r with String c _ => negb (is_ws c) | "" => false end.
+Lemma words_cons_nonws c r : is_ws c = false ->
+  words (String c r) = if starts_nonws r then cons_first c (words r) else s1 c :: words r.
+Proof. intros H. cbn [words]. rewrite H. destruct r as [|c' r']; [reflexivity|]. cbn [starts_nonws]. now destruct (is_ws c'). Qed.
+Lemma words_starts_nonws r : starts_nonws r = true -> exists w t, words r = w :: t.
+Proof.
+  destruct r as [|c r']; [discriminate|]. cbn [starts_nonws]. intros H. apply negb_true_iff in H.
+  destruct (words_head_prefix (String c r') c r' eq_refl H) as [w [t [_ [Hw _]]]]. now exists w, t.
+Qed.
+Definition glue (x : string) (l : list string) : list string := match l with w :: t => (x ++ w) :: t | [] => [x] end.
+Lemma words_prepend_nonws x r : x <> "" -> allb nonws x = true ->
+  words (x ++ r) = if starts_nonws r then glue x (words r) else x :: words r.
+Proof.
+  induction x as [|a x IH]; [congruence|]. intros _ H. cbn [allb] in H. apply andb_true_iff in H as [Ha Hx].
+  unfold nonws in Ha. apply negb_true_iff in Ha. cbn [append]. rewrite (words_cons_nonws a _ Ha).
+  destruct x as [|b x].
+  - cbn [append]. destruct (starts_nonws r) eqn:S; [|reflexivity].
+    destruct (words_starts_nonws r S) as [w [t ->]]. reflexivity.
+  - assert (S2 : starts_nonws (String b x ++ r) = true).
+    { cbn [append starts_nonws]. cbn [allb] in Hx. now apply andb_true_iff in Hx as [? _]. }
+    rewrite S2, IH by (discriminate || assumption).
+    destruct (starts_nonws r) eqn:S; [|reflexivity].
+    destruct (words_starts_nonws r S) as [w [t ->]]. reflexivity.
+Qed.
+
+Definition esc_char (c : ascii) : string := if is_meta c then String BSL (s1 c) else s1 c.
+Lemma escape_cons c r : escape_meta (String c r) = esc_char c ++ escape_meta r.
+Proof. reflexivity. Qed.
+Lemma esc_char_nonws c : is_ws c = false -> esc_char c <> "" /\ allb nonws (esc_char c) = true.
+Proof. revert c. intros c. all_chars c; intros; split; (discriminate || reflexivity). Qed.
+Lemma starts_nonws_esc r : starts_nonws (escape_meta r) = starts_nonws r.
+Proof. destruct r as [|c r]; [reflexivity|]. change (escape_meta (String c r)) with (esc_char c ++ escape_meta r). generalize (escape_meta r). intros e. all_chars c. Qed.
+
+Lemma words_escape s : words (escape_meta s) = map escape_meta (words s).
+Proof.
+  induction s as [|c r IH]; [reflexivity|]. rewrite escape_cons.
+  destruct (is_ws c) eqn:W.
+  - unfold esc_char. rewrite (ws_not_meta c W). cbn [append s1 words]. rewrite W. exact IH.
+  - destruct (esc_char_nonws c W) as [N1 N2].
+    rewrite (words_prepend_nonws _ _ N1 N2), starts_nonws_esc, IH, (words_cons_nonws c r W).
+    destruct (starts_nonws r) eqn:S.
+    + destruct (words_starts_nonws r S) as [w [t ->]]. cbn [map glue cons_first]. now rewrite escape_cons.
+    + cbn [map]. f_equal. change (escape_meta (s1 c)) with (esc_char c ++ ""). now rewrite sapp_nil_r.
+Qed.
+
+(* un-escaping the quoted pattern *)
+Fixpoint prepend (pre : string) (r : ures) : ures :=
+  match pre with "" => r | String c p => ucons c (prepend p r) end.
+Lemma prepend_app a b r : prepend (a ++ b) r = prepend a (prepend b r).
+Proof. induction a as [|c a IH]; [reflexivity|]. cbn [append prepend]. now rewrite IH. Qed.
+Lemma prepend_ok pre v rest : prepend pre (UOk v rest) = UOk (pre ++ v) rest.
+Proof. induction pre as [|c p IH]; [reflexivity|]. cbn [append prepend]. now rewrite IH. Qed.
+Lemma cmap_app f a b : cmap f (a ++ b) = cmap f a ++ cmap f b.
+Proof. induction a as [|c a IH]; [reflexivity|]. cbn [append cmap]. now rewrite IH, sapp_assoc. Qed.
+
+Definition lit_char_ok (c : ascii) : bool := negb (raw_forbidden c).
+(* what the literal "…" denotes for one escaped-and-quoted description character *)
+Definition lit_val (c : ascii) : string :=
+  if ceq c BSL then s1 BSL else if ceq c DQ then s1 DQ else if is_meta c then String BSL (s1 c) else s1 c.
+Lemma qchar_unesc c r : lit_char_ok c = true ->
+  unesc UN (cmap qo_char (esc_char c) ++ r) = prepend (lit_val c) (unesc UN r).
+Proof. all_chars c. Qed.
+Lemma qchar_no_lf c : lit_char_ok c = true -> no_lf (cmap qo_char (esc_char c)) = true.
+Proof. all_chars c. Qed.
+Lemma qword_unesc w r : allb lit_char_ok w = true ->
+  unesc UN (cmap qo_char (escape_meta w) ++ r) = prepend (cmap lit_val w) (unesc UN r).
+Proof.
+  induction w as [|c w IH]; [reflexivity|]. cbn [allb]. intros H. apply andb_true_iff in H as [H1 H2].
+  rewrite escape_cons, cmap_app, sapp_assoc, (qchar_unesc c _ H1), (IH H2). cbn [cmap]. now rewrite prepend_app.
+Qed.
+Lemma qword_no_lf w : allb lit_char_ok w = true -> no_lf (cmap qo_char (escape_meta w)) = true.
+Proof.
+  induction w as [|c w IH]; [reflexivity|]. cbn [allb]. intros H. apply andb_true_iff in H as [H1 H2].
+  rewrite escape_cons, cmap_app. unfold no_lf in *. rewrite allb_app. fold (no_lf (cmap qo_char (esc_char c))).
+  now rewrite (qchar_no_lf c H1), (IH H2).
+Qed.
+Lemma joiner_unesc r : unesc UN (cmap qo_char pattern_joiner ++ r) = prepend pattern_joiner (unesc UN r).
+Proof. reflexivity. Qed.
+
+Lemma qpattern ws : Forall (fun w => allb lit_char_ok w = true) ws ->
+  no_lf (cmap qo_char (sconcat pattern_joiner (map escape_meta ws))) = true /\
+  exists n, forall r, unesc UN (cmap qo_char (sconcat pattern_joiner (map escape_meta ws)) ++ r) = prepend n (unesc UN r).
+Proof.
+  induction 1 as [|w t Hw Ht [IH1 [n IH2]]].
+  - split; [reflexivity|]. now exists "".
+  - destruct t as [|w2 t].
+    + cbn [map sconcat]. split; [now apply qword_no_lf|]. eexists. intros r. now apply qword_unesc.
+    + change (sconcat pattern_joiner (map escape_meta (w :: w2 :: t)))
+        with (escape_meta w ++ pattern_joiner ++ sconcat pattern_joiner (map escape_meta (w2 :: t))).
+      rewrite !cmap_app. split.
+      * unfold no_lf in *. rewrite !allb_app. fold (no_lf (cmap qo_char (escape_meta w))). rewrite (qword_no_lf w Hw), IH1. reflexivity.
+      * exists (cmap lit_val w ++ pattern_joiner ++ n). intros r.
+        rewrite !sapp_assoc, (qword_unesc w _ Hw), joiner_unesc, IH2, !prepend_app. reflexivity.
+Qed.
+
+(* NUL-freeness survives the cleaning *)
+Definition nonnul (c : ascii) : bool := negb (N.eqb (cn c) 0).
+Lemma allb_drop p n s : allb p s = true -> allb p (drop n s) = true.
+Proof.
+  intros H. destruct (drop_suffix n s) as [q Hq]. rewrite Hq, allb_app in H. now apply andb_true_iff in H as [_ ?].
+Qed.
+Lemma allb_sub_go p m k s : allb p s = true -> allb p (sub_go m k s) = true.
+Proof.
+  revert k; induction s as [|c r IH]; intros k H; [reflexivity|]. cbn [allb] in H. apply andb_true_iff in H as [H1 H2].
+  cbn [sub_go]. destruct k; [|now apply IH]. destruct (m (String c r)) as [[|j]|]; cbn [allb]; rewrite ?H1; cbn [andb]; now apply IH.
+Qed.
+Lemma allb_rstrip p s : allb p s = true -> allb p (rstrip s) = true.
+Proof.
+  intros H. destruct (rstrip_prefix s) as [q Hq]. rewrite Hq, allb_app in H. now apply andb_true_iff in H as [? _].
+Qed.
+Lemma allb_strip_prefixes p ci ps s : allb p s = true -> allb p (strip_prefixes ci ps s) = true.
+Proof.
+  revert s; induction ps as [|x ps IH]; intros s H; [exact H|]. cbn [strip_prefixes]. apply IH.
+  destruct (if ci then _ else _); [now apply allb_drop | exact H].
+Qed.
+Lemma allb_cons_first p c l : p c = true -> Forall (fun w => allb p w = true) l -> Forall (fun w => allb p w = true) (cons_first c l).
+Proof.
+  intros Hc Hl. destruct l as [|w t]; cbn [cons_first].
+  - constructor; [cbn; now rewrite Hc | constructor].
+  - inversion Hl; subst. constructor; [cbn [allb]; now rewrite Hc | assumption].
+Qed.
+Lemma allb_words p s : allb p s = true -> Forall (fun w => allb p w = true) (words s).
+Proof.
+  induction s as [|c r IH]; [constructor|]. cbn [allb]. intros H. apply andb_true_iff in H as [H1 H2].
+  cbn [words]. destruct (is_ws c); [now apply IH|]. destruct r as [|y r2].
+  - constructor; [cbn; now rewrite H1 | constructor].
+  - destruct (is_ws y).
+    + constructor; [cbn; now rewrite H1 | now apply IH].
+    + apply allb_cons_first; [assumption | now apply IH].
+Qed.
+Lemma upper_nonnul s : allb nonnul (upper s) = allb nonnul s.
+Proof. unfold upper. induction s as [|c r IH]; [reflexivity|]. cbn [smap allb]. rewrite IH. f_equal. clear. all_chars c. Qed.
+Lemma nonws_nonnul_ok w : allb nonws w = true -> allb nonnul w = true -> allb lit_char_ok w = true.
+Proof.
+  induction w as [|c w IH]; [reflexivity|]. cbn [allb]. intros A B. apply andb_true_iff in A as [A1 A2]. apply andb_true_iff in B as [B1 B2].
+  rewrite (IH A2 B2), andb_true_r. clear -A1 B1. revert A1 B1. all_chars c.
+Qed.
+
+Lemma clean_form_nonnul u : allb nonnul u = true ->
+  allb nonnul (strip (strip_prefixes false pattern_prefixes (resub m_storeno (resub m_zip (resub (m_state false) (resub m_storeid u)))))) = true.
+Proof.
+  intros H. unfold strip, lstrip, resub. apply allb_rstrip, allb_drop, allb_strip_prefixes. repeat apply allb_sub_go. exact H.
+Qed.
+Lemma clean_nonnul d s6 : allb nonnul d = true -> clean d = Some s6 -> allb nonnul s6 = true.
+Proof.
+  intros H C. rewrite clean_eq in C. rewrite <- upper_nonnul in H. pose proof (clean_form_nonnul (upper d) H) as S.
+  unfold clean3 in C. revert C S.
+  generalize (strip (strip_prefixes false pattern_prefixes (resub m_storeno (resub m_zip (resub (m_state false) (resub m_storeid (upper d))))))).
+  intros Y C S. injection C as <-. exact S.
+Qed.
+
+(* no words: the stripped text is empty *)
+Lemma words_nil s : words s = [] -> allb is_ws s = true.
+Proof.
+  induction s as [|c r IH]; [reflexivity|]. destruct (is_ws c) eqn:W.
+  - cbn [words allb]. rewrite W. exact IH.
+  - rewrite (words_cons_nonws c r W). destruct (starts_nonws r); [|discriminate]. destruct (words r); discriminate.
+Qed.
+Lemma drop_span_all p s : allb p s = true -> drop (span p s) s = "".
+Proof. induction s as [|c r IH]; [reflexivity|]. cbn [allb]. intros H. apply andb_true_iff in H as [H1 H2]. cbn [span]. rewrite H1. cbn [drop]. auto. Qed.
+Lemma strip_all_ws s : allb is_ws (strip s) = true -> strip s = "".
+Proof.
+  intros H. destruct (has_nonws s) eqn:N.
+  - destruct (lstrip_nonws_head s N) as [c [r [E Hc]]]. unfold strip in H. rewrite E in H. cbn [rstrip] in H. rewrite Hc in H.
+    cbn [andb allb] in H. rewrite Hc in H. discriminate.
+  - unfold has_nonws in N. apply negb_false_iff in N. unfold strip, lstrip. now rewrite (drop_span_all _ _ N).
+Qed.
+
+Definition no_nul (d : string) : bool := allb nonnul d.
+
+Lemma pattern_loads d : no_nul d = true ->
+  exists p n, suggest_pattern d = Some p /\ no_lf (cmap qo_char p) = true /\ unesc UN (cmap qo_char p ++ String DQ ")") = UOk n ")".
+Proof.
+  intros Hd. unfold suggest_pattern. destruct (clean_total d) as [s6 C]. rewrite C.
+  pose proof (clean_nonnul d s6 Hd C) as N6.
+  unfold pattern_of_clean. change (apply_escape pattern_escape s6) with (Some (escape_meta s6)).
+  cbv beta iota zeta. rewrite words_escape, firstn_map.
+  destruct (firstn pattern_take (words s6)) as [|w t] eqn:F.
+  - (* no words: s6 is empty *)
+    assert (W : words s6 = []). { destruct (words s6); [reflexivity | discriminate]. }
+    assert (E : s6 = "").
+    { rewrite clean_eq in C. injection C as <-. apply strip_all_ws. now apply words_nil. }
+    subst s6. exists "", "". repeat split; reflexivity.
+  - assert (G : Forall (fun w => allb lit_char_ok w = true) (w :: t)).
+    { rewrite <- F. apply firstn_Forall. pose proof (words_good s6) as G1. pose proof (allb_words nonnul s6 N6) as G2.
+      clear -G1 G2. induction G1 as [|x l [_ Hx] Hl IH]; [constructor|]. inversion G2; subst. constructor; [now apply nonws_nonnul_ok | now apply IH]. }
+    destruct (qpattern (w :: t) G) as [L [n U]].
+    exists (sconcat pattern_joiner (map escape_meta (w :: t))), n. cbn [map] in *. repeat split; [exact L|]. rewrite U. change (unesc UN (String DQ ")")) with (UOk "" ")"). now rewrite prepend_ok, sapp_nil_r.
+Qed.
+
+Section WithRegex.
+  Variable re_search : string -> string -> option bool.
+  Theorem loads_partial d neg : no_nul d = true -> exists b, observe re_search Orig d (tags_of neg) = ObsLoaded b.
+  Proof.
+    intros Hd. destruct (pattern_loads d Hd) as [p [n [P [L U]]]].
+    unfold observe, suggested_rule, needle_of. rewrite P. destruct (merchant_name_ok d) as [nm [-> Hnm]].
+    unfold rule_text, quote, quote_orig. exists (ci_contains n d).
+    apply (observe_loaded re_search _ nm n). apply load_rule_lines; [assumption | exact L | apply tags_of_cases | exact U].
+  Qed.
+End WithRegex.
